@@ -85,15 +85,21 @@ func propC14(c c14Case) hh.Verdict {
 }
 
 func genC14(rt *rapid.T, h *hh.H, cfg model.GenCfg) c14Case {
+	return genC14With(rt, cfg, h.Open("source-tag-below-depth-1"), h.Open("nested-struct-under-flat-source"))
+}
+
+// genC14With draws a record and a tagged schema for it; the two flags keep the case out of the reach of the two
+// open findings of that name (KNOWN_FINDINGS.txt).
+func genC14With(rt *rapid.T, cfg model.GenCfg, avoidNestedTags, avoidNestedFlat bool) c14Case {
 	cfg.LogicalKeys, cfg.NoAltRepr, cfg.NoCustom = true, true, true
 	cfg.RootKinds = []string{model.KStruct}
 	cfg.TagKinds = []string{"json", "form", "query", "env"}
 	cfg.PSourceTag = 0.35
 	cfg.LeafKinds = []string{model.KString, model.KString, model.KInt, model.KInt64, model.KInt32, model.KFloat64, model.KFloat32, model.KBool, model.KTime}
-	if h.Open("source-tag-below-depth-1") {
+	if avoidNestedTags {
 		cfg.NoNestedSourceTags = true
 	}
-	if h.Open("nested-struct-under-flat-source") && rapid.IntRange(0, 3).Draw(rt, "flatcase") > 0 {
+	if avoidNestedFlat && rapid.IntRange(0, 3).Draw(rt, "flatcase") > 0 {
 		cfg.NoNestedStructs = true // 3 of 4 records are expressible in the flat sources
 	}
 	g := model.NewGen(rt, cfg)
@@ -116,7 +122,7 @@ func genC14(rt *rapid.T, h *hh.H, cfg model.GenCfg) c14Case {
 			nested = true
 		}
 	})
-	if nested && h.Open("nested-struct-under-flat-source") {
+	if nested && avoidNestedFlat {
 		// open finding: flat sources are not rendered for records with nested structs (the finding is probed separately)
 		c.FEs = []string{model.FEMap, model.FEJSON, model.FEHTTPJSON}
 	}
